@@ -65,7 +65,10 @@ def grad_cases():
                   # tight limits: the clipping loop runs into its late, more aggressive iterations
                   ("PAPRConstraint(tight)", lambda: K.PAPRConstraint(max_papr=1.2), cplx, (2, 16)), ("PAPRConstraint(tight)", lambda: K.PAPRConstraint(max_papr=1.1), cplx, (16,)),
                   ("PAPRConstraint(tight)", lambda: K.PAPRConstraint(max_papr=1.05), cplx, (3, 10)),
-                  ("PerAntennaPowerConstraint", lambda: K.PerAntennaPowerConstraint(uniform_power=1.5), cplx, (2, 3, 8))]
+                  ("PerAntennaPowerConstraint", lambda: K.PerAntennaPowerConstraint(uniform_power=1.5), cplx, (2, 3, 8)),
+                  # a budget tensor of default (single) precision next to the double-precision signal of this check
+                  ("PerAntennaPowerConstraint(float32 budget)", lambda: K.PerAntennaPowerConstraint(power_budget=torch.tensor([0.5, 1.0, 2.0])), cplx, (2, 3, 8)),
+                  ("PerAntennaPowerConstraint(float64 budget)", lambda: K.PerAntennaPowerConstraint(power_budget=torch.tensor([0.5, 1.0, 2.0], dtype=torch.float64)), cplx, (2, 3, 8))]
     cases.append(("PhaseNoiseChannel", lambda: C.PhaseNoiseChannel(phase_noise_std=0.2), True, (2, 10)))
     # the call-time keywords a DeepJSCC pipeline hands to every stage (model(image, snr=10.0), csi=...): whatever a channel makes of them,
     # the result stays differentiable with the right gradient
@@ -152,6 +155,12 @@ def grad_event(name, mk, cplx, shape, seed):
                 rel = abs(ana - fd) / max(abs(ana), abs(fd), 1e-12)
                 best = rel if best is None else min(best, rel)
             ev["relerr_ppm"] = sint(min(best, 1.0) * 1e6)
+            # constraints are computed in the signal's own (double) precision: there the derivative must also agree at a fine step, which a
+            # single-precision round trip inside the computation (a staircase at the 1e-7 scale) does not survive
+            if "Constraint" in name and "PAPR" not in name and "chain" not in name and "combine" not in name:
+                e6 = 1e-6
+                fd6 = float((L(x0 + e6 * d) - L(x0 - e6 * d)) / (2 * e6))
+                ev["relerr_ppm"] = max(ev["relerr_ppm"], sint(min(abs(ana - fd6) / max(abs(ana), abs(fd6), 1e-12), 1.0) * 1e6))
     except Exception as ex:
         ev["raised"] = True
         ev["error"] = repr(ex)[:150]
@@ -300,6 +309,14 @@ def run(run):
     for (gname, mk, cplx, shape) in grad_cases():
         for rep in range(2 if quick else 6):
             ge = grad_event(gname, mk, cplx, shape, run.seed * 100 + rep * 7 + len(shape))
+            if "PAPR" in gname and not ge["raised"] and ge["relerr_ppm"] > 2000:
+                # the PAPR loop switches its iteration count and its clipped set discretely with the input: a base point may sit next to such
+                # a kink, where finite differences and the derivative legitimately differ (the property speaks of inputs away from the kinks).
+                # The case is judged on the best of this point and two more independent ones - a wrong gradient is wrong at all of them.
+                for extra in (1, 2):
+                    g2 = grad_event(gname, mk, cplx, shape, run.seed * 100 + rep * 7 + len(shape) + 1000 * extra)
+                    if not g2["raised"] and g2["relerr_ppm"] < ge["relerr_ppm"]:
+                        ge = g2
             add(ge, gname.split("(")[0], {"component": gname, "complex": cplx, "ndim": len(shape), "batch": shape[0] if len(shape) > 1 else 0})
             run.case(("grad", gname, cplx, shape, rep), nontrivial=True)
     run.log("%d events" % len(evs))
